@@ -2,12 +2,13 @@
 # tools/seedtest.sh <PROPERTY> <seed dir> <demo dest dir (relative to repo)> '<demo go test cmd>' [tier] [extra props...]
 # Confirms a seeded change in a scratch worktree of /repo (demo passes without, fails with the patch) and runs the
 # property's check against the patched tree.  Nothing is applied to /repo itself.
+V=${VERIF_HOME:-/verif}
 set -u
 P=$1; DIR=$2; DEST=$3; CMD=$4; TIER=${5:-quick}
 export GOFLAGS=-mod=mod GOPROXY=off GOSUMDB=off GOTOOLCHAIN=local
 W=/tmp/confirm-$P-$$
 git -C /repo worktree add -q --detach $W HEAD || exit 2
-trap 'cd /; git -C /repo worktree remove --force $W; /verif/tools/rebuild.sh' EXIT
+trap 'cd /; git -C /repo worktree remove --force $W; $V/tools/rebuild.sh' EXIT
 cd $W; mkdir -p $W/$DEST
 for f in $DIR/*_test.go; do cp "$f" "$W/$DEST/"; done
 echo "== demo WITHOUT patch:"; (timeout 300 bash -c "$CMD" 2>&1 | grep -E "^(ok|FAIL|---|PASS|panic)" | head -8)
@@ -18,5 +19,5 @@ for f in $DIR/*_test.go; do rm -f "$W/$DEST/$(basename $f)"; done
 if [ $# -ge 5 ]; then shift 5; else shift $#; fi
 for Q in $P "$@"; do
   echo "== check $Q ($TIER) against the patched tree:"
-  (cd /verif && VERIF_REPO=$W ./check $Q --tier $TIER 2>&1 | grep -v "^KNOWN" | tail -5 | cut -c1-800)
+  (cd $V && VERIF_REPO=$W ./check $Q --tier $TIER 2>&1 | grep -v "^KNOWN" | tail -5 | cut -c1-800)
 done
